@@ -201,6 +201,8 @@ def work(p):
             for i, (q, flavor) in enumerate(spec["literal"]["funcs"]):
                 m.funcs.append(gm.FuncSpec(i + 1, q, [], "module", flavor))
             res.count("pinned_witnesses")
+            if spec["name"] == "vfm06_shapes":
+                res6.count("pinned_shape_programs")
         else:
             m = gm.Mod(rng, spec["name"], opts).build(spec.get("nfuncs", 10))
         try:
@@ -295,6 +297,65 @@ PINNED.append(
      "literal": {"source": "\ndef hot(v):\n    return v\n", "funcs": [["hot", "plain"]],
                  "plan": [{"qual": "hot", "access": "hot", "args": ["1"], "kwargs": {}, "flavor": "plain", "kind": "module"}] * 2300
                  + [{"qual": "hot", "access": "hot", "args": ["'s'"], "kwargs": {}, "flavor": "plain", "kind": "module"}]}})
+
+
+def _call(q, args, flavor="plain"):
+    return {"qual": q, "access": q, "args": args, "kwargs": {}, "flavor": flavor, "kind": "module"}
+
+
+# Deterministic shapes for the end-to-end part of C06 (run -> rows -> stub classes, every k, and stores written under a larger limit
+# than the stub is generated with): every way a TypedDict can reach a row or a stub class that the random pools only sometimes produce.
+C06_SHAPES_SOURCE = '''
+def gen_rows(n0):
+    yield {'ga': 1}
+    yield {'gb': 2}
+    yield {'gc': 3}
+    yield {'ga': 1, 'gd': {'ge': 1, 'gf': 2, 'gg': 3}}
+
+
+def nested(cfg0):
+    return cfg0
+
+
+def shared_a(opts):
+    return 1
+
+
+def shared_b(opts):
+    return 2
+
+
+def in_containers(c0):
+    return c0
+
+
+def merged_list(rows0):
+    return [dict(r) for r in rows0]
+
+
+def returns_big(n1):
+    return {'r%d' % i: i for i in range(n1)}
+
+
+def mixed_keys(m0):
+    return m0
+'''
+C06_SHAPES_PLAN = (
+    [_call("gen_rows", ["1"], "gen")]
+    + [_call("nested", [v]) for v in ("{'no': {'nx': 1, 'ny': 2, 'nz': 3}}", "{'no': {'nx': 1}, 'np': [{'na': 1, 'nb': 2, 'nc': 3, 'nd': 4}]}",
+                                      "{'n1': {'n2': {'n3': {'n4': 1, 'n5': 2, 'n6': 3}}}}")]
+    + [_call("shared_a", ["{'sa': 1, 'sb': 2}"]), _call("shared_b", ["{'sc': 1, 'sd': 2}"]), _call("shared_a", ["{'sa': 1, 'sb': 2}"]), _call("shared_b", ["{'sc': 1, 'se': 's'}"])]
+    + [_call("in_containers", [v]) for v in ("[{'ca': 1, 'cb': 2, 'cc': 3}]", "({'ca': 1, 'cb': 2, 'cc': 3}, 1)", "{1: {'ca': 1, 'cb': 2, 'cc': 3}}",
+                                             "defaultdict(dict, {'k': {'ca': 1, 'cb': 2, 'cc': 3}})", "[({'ca': 1, 'cb': 2, 'cc': 3},)]", "{'w': [{'ca': 1, 'cb': 2, 'cc': 3}]}")]
+    + [_call("merged_list", [v]) for v in ("[{'ma': 1}, {'mb': 2}]", "[{'mc': 3}]", "[{'ma': 1, 'md': 4}, {'me': 5}]", "[]")]
+    + [_call("returns_big", [str(n)]) for n in (0, 1, 2, 3, 4, 10, 11)]
+    + [_call("mixed_keys", [v]) for v in ("{'xa': 1, 2: 3}", "{1: 2}", "{}", "{'xa': 1}", "{SKey('xa'): 1}")]
+)
+C06_PINNED = [{"name": "vfm06_shapes", "seed": "c06shapes", "stratum": "main", "ks": KS, "rewriters": ["NoOpRewriter", "DEFAULT"], "flags": ["default", "norewrite"],
+               "cross_k": {"10": [0, 1, 2, 3], "3": [0, 1, 2], "2": [0, 1]},
+               "literal": {"source": C06_SHAPES_SOURCE, "funcs": [[q, "gen" if q == "gen_rows" else "plain"] for q in
+                                                                  ("gen_rows", "nested", "shared_a", "shared_b", "in_containers", "merged_list", "returns_big", "mixed_keys")],
+                           "plan": C06_SHAPES_PLAN}}]
 
 
 def run(ck):
